@@ -35,10 +35,10 @@ func findSegmentContains(segments []*segment, offset int64) (*segment, bool) {
 }
 
 // findSegmentIndexByTimestamp returns the index of the first segment whose
-// base timestamp is greater than the given timestamp. Returns the index where
-// the segment would be if there is no segment whose base timestamp is greater,
-// i.e. the length of the slice.
-func findSegmentIndexByTimestamp(segments []*segment, timestamp int64) (int, error) {
+// base timestamp is greater than the given timestamp or, if inclusive is set,
+// greater than or equal to it. Returns the index where the segment would be if
+// there is no such segment, i.e. the length of the slice.
+func findSegmentIndexByTimestamp(segments []*segment, timestamp int64, inclusive bool) (int, error) {
 	var (
 		n   = len(segments)
 		err error
@@ -53,6 +53,9 @@ func findSegmentIndexByTimestamp(segments []*segment, timestamp int64) (int, err
 			if e != io.EOF {
 				err = e
 			}
+			return true
+		}
+		if inclusive && entry.Timestamp == timestamp {
 			return true
 		}
 		return entry.Timestamp > timestamp
